@@ -221,6 +221,10 @@ ASMJIT_FAVOR_SIZE Error FuncFrame::finalize() noexcept {
     add_attributes(FuncAttributes::kAlignedVecSR);
     v = Support::align_up(v, vector_size);     // Align 'extra_reg_save_offset'.
   }
+  else {
+    // The attribute is an output of finalize(), don't trust a value set earlier (by the user or a previous finalize()).
+    clear_attributes(FuncAttributes::kAlignedVecSR);
+  }
 
   _extra_reg_save_offset = v;                   // Store 'extra_reg_save_offset' <- Non-GP save/restore starts here.
   v += _extra_reg_save_size;                    // Count 'extra_reg_save_size'   <- Non-GP save/restore ends here.
